@@ -84,11 +84,11 @@ class FuncInfo:
 
 
 class ModuleInfo:
-    def __init__(self, name, path, src):
+    def __init__(self, name, path, src, tree=None):
         self.name = name
         self.path = path
         self.src = src
-        self.tree = ast.parse(src, filename=path)
+        self.tree = tree if tree is not None else ast.parse(src, filename=path)
         self.inlined = []
         try:
             from . import inline
@@ -138,6 +138,7 @@ class Model:
         self.overlay = overlay or {}
         self.modules = {}
         self.functions = {}
+        sources, trees = {}, {}
         for name in MODULES:
             fname = name + ".py"
             path = os.path.join(self.root, PKG, fname)
@@ -149,9 +150,17 @@ class Model:
                 with open(path, "r", encoding="utf-8") as fid:
                     src = fid.read()
             try:
-                mod = ModuleInfo(name, path, src)
+                trees[name] = ast.parse(src, filename=path)
             except SyntaxError as err:
                 raise AnalysisError("module %s does not parse: %s" % (name, err))
+            sources[name] = (path, src)
+        from . import renames
+
+        # anchors found under a new name are analysed under the name the rules know
+        self.renamed = renames.apply(trees)
+        for name in MODULES:
+            path, src = sources[name]
+            mod = ModuleInfo(name, path, src, trees[name])
             self.modules[name] = mod
             self._index(mod)
         self._qualify()
